@@ -381,6 +381,27 @@ func cyclePrograms(r *rng.R, k int) []cycleCase {
 		defs = append(defs, &Def{Kind: 'T', Name: fmt.Sprintf("T%d", depth), Ty: &TExpr{Kind: "i32"}})
 		add(oneFile(defs...), fmt.Sprintf("typedefs shared twice per level, depth %d", depth), "")
 	}
+	// layers of two files, every file including both files of the next layer: an acyclic include
+	// graph in which the last layer is reached along 2^depth paths. Whoever walks it (the compiler
+	// loads every file once; the generator looks for include cycles) must remember what is done.
+	for _, layers := range []int{6, 40} {
+		var files []*File
+		for l := 0; l < layers; l++ {
+			for k := 0; k < 2; k++ {
+				f := &File{Path: fmt.Sprintf("l%d_%d.thrift", l, k)}
+				if l+1 < layers {
+					f.Includes = []Include{{Path: fmt.Sprintf("./l%d_0.thrift", l+1)}, {Path: fmt.Sprintf("./l%d_1.thrift", l+1)}}
+					f.Defs = []*Def{{Kind: 'T', Name: fmt.Sprintf("T%d_%d", l, k), Ty: &TExpr{Kind: "list", A: tref(fmt.Sprintf("l%d_%d.T%d_%d", l+1, k, l+1, k))}}}
+				} else {
+					f.Defs = []*Def{{Kind: 'T', Name: fmt.Sprintf("T%d_%d", l, k), Ty: &TExpr{Kind: "i32"}}}
+				}
+				files = append(files, f)
+			}
+		}
+		root := &File{Path: "root.thrift", Includes: []Include{{Path: "./l0_0.thrift"}, {Path: "./l0_1.thrift"}},
+			Defs: []*Def{{Kind: 'T', Name: "Top", Ty: tref("l0_0.T0_0")}}}
+		add(&Prog{Strict: true, Files: append([]*File{root}, files...)}, fmt.Sprintf("include diamonds, %d layers of two files", layers), "")
+	}
 	// deep acyclic structures must be handled without overflowing
 	for _, depth := range []int{50, 400} {
 		t := &TExpr{Kind: "i32"}
